@@ -10,12 +10,12 @@ amount of padding, at any depth via `canonPtr_struct_pad`) does not change it; t
 and never leaves a trailing zero word / null pointer (`trunc*_idem`, `trunc*_last`); two word-aligned data
 sections are equal in the sense of `Equal` (C17) exactly when their canonical truncations are identical
 (`dataEq_iff_truncData`), hence equal pointer-free structs have identical canonical bytes (`canon_flat_of_eq`);
-capabilities are rejected.
+the truncated struct is `Equal` to the original (`trunc_preserves_value`); capabilities are rejected.
 That `Canonicalize` computes `canon`, that the result decodes to an equal value, and that
 canonicalising twice is the identity are decided by the S-stream of the C18 check.
 -/
 namespace Capnp.Props.C18
-open Capnp.Spec.Value Capnp.Spec.Canon
+open Capnp.Spec.Value Capnp.Spec.Canon Capnp.Props.C17
 
 theorem dropWhile_replicate_append {α} (p : α → Bool) (x : α) (k : Nat) (l : List α) (hx : p x = true) :
     (List.replicate k x ++ l).dropWhile p = l.dropWhile p := by
@@ -281,6 +281,62 @@ theorem canon_flat_of_eq (f : Nat) (a b : List Nat) (m n : Nat) (ha : a.length =
 example : dataEq [1,0,0,0,0,0,0,0, 0,0,0,0,0,0,0,0] [1,0,0,0,0,0,0,0] = true ∧
     truncData [1,0,0,0,0,0,0,0, 0,0,0,0,0,0,0,0] = truncData [1,0,0,0,0,0,0,0] := by
   refine ⟨by decide, (dataEq_iff_truncData _ _ 2 1 rfl rfl).1 (by decide)⟩
+
+/-! ## canonical truncation preserves the value -/
+
+theorem truncPtrs_snoc (ps : List Val) (v : Val) :
+    truncPtrs (ps ++ [v]) = if isNullV v then truncPtrs ps else ps ++ [v] := by
+  unfold truncPtrs
+  rw [List.reverse_append]
+  by_cases h : isNullV v = true
+  · simp [h]
+  · simp [h]
+
+theorem isNullV_eq (v : Val) (h : isNullV v = true) : v = .null := by
+  cases v <;> simp [isNullV] at h ⊢
+
+/-- pointer truncation only removes null pointers from the end -/
+theorem truncPtrs_prefix_rev (r : List Val) : ∃ j, r.reverse = truncPtrs r.reverse ++ List.replicate j .null := by
+  induction r with
+  | nil => exact ⟨0, rfl⟩
+  | cons v r ih =>
+    rw [List.reverse_cons, truncPtrs_snoc]
+    by_cases h : isNullV v = true
+    · obtain ⟨j, hj⟩ := ih
+      rw [if_pos h, isNullV_eq v h]
+      refine ⟨j + 1, ?_⟩
+      rw [← List.replicate_append_replicate, ← List.append_assoc, ← hj]; rfl
+    · rw [if_neg h]; exact ⟨0, by simp⟩
+
+/-- pointer truncation only removes null pointers from the end -/
+theorem truncPtrs_prefix (ps : List Val) : ∃ j, ps = truncPtrs ps ++ List.replicate j .null := by
+  have := truncPtrs_prefix_rev ps.reverse
+  rwa [List.reverse_reverse] at this
+
+theorem fitsAll_append_left (f : Nat) (xs ys : List Val) (h : fitsAll f (xs ++ ys) = true) : fitsAll f xs = true := by
+  induction xs with
+  | nil => simp [fitsAll]
+  | cons x xs ih =>
+    simp only [List.cons_append, fitsAll, Bool.and_eq_true] at h ⊢
+    exact ⟨h.1, ih h.2⟩
+
+/-- **canonical truncation is value-preserving**: for every struct (word-aligned data section, any pointers), the
+    struct with its data and pointer sections truncated as the canonical form requires is `Equal` (C17's
+    documented equality) to the original -/
+theorem trunc_preserves_value (f : Nat) (d : List Nat) (ps : List Val) (m : Nat) (hd : d.length = 8 * m)
+    (hf : fitsAll f ps = true) :
+    eq (f + 1) (.struct d ps) (.struct (truncData d) (truncPtrs ps)) = true := by
+  obtain ⟨k, hk⟩ := truncData_prefix d m hd
+  obtain ⟨j, hj⟩ := truncPtrs_prefix ps
+  have hf' : fitsAll f (truncPtrs ps) = true := by
+    rw [hj] at hf; exact fitsAll_append_left f _ _ hf
+  have := eq_struct_pad f (truncData d) (truncPtrs ps) k j hf'
+  rw [← hk, ← hj] at this
+  exact this
+
+example : eq 3 (.struct [7,0,0,0,0,0,0,0, 0,0,0,0,0,0,0,0] [.cap 1, .null])
+    (.struct (truncData [7,0,0,0,0,0,0,0, 0,0,0,0,0,0,0,0]) (truncPtrs [.cap 1, .null])) = true :=
+  trunc_preserves_value 2 _ _ 2 rfl (by decide)
 
 -- non-vacuity
 example : canon (.struct [] [.cap 3]) = none := by simp [canon, canonPtr, truncData, truncPtrs, isNullV, canonPtrs]
